@@ -97,6 +97,13 @@ func SetupServer(credentials []settings.Credentials, region string, apiEndpoint 
 		rootHandler = authentication.MakeSignatureMiddleware(authCreds, region, rootHandler)
 	} else {
 		slog.Warn("Authentication is disabled, this is not recommended for production use")
+		// The signature middleware normally decodes aws-chunked uploads; without
+		// it the chunk framing would be stored verbatim.
+		unauthenticatedHandler := rootHandler
+		rootHandler = http.HandlerFunc(func(w http.ResponseWriter, r *http.Request) {
+			authentication.DecodeUnauthenticatedAwsChunkedBody(r)
+			unauthenticatedHandler.ServeHTTP(w, r)
+		})
 	}
 	rootHandler = httpmiddleware.MakeRequestContextMiddleware(rootHandler)
 
